@@ -388,7 +388,9 @@ fn explore(ctx: &mut Ctx) {
         }
     }
     // Word-boundary parents: iterators that cross 64-bit words and empty words.
-    for d in [BitsDesc::Runs { pairs: vec![(62, 3), (63, 1), (1, 2)], tail: 0 }, BitsDesc::Runs { pairs: vec![(0, 1), (127, 1), (0, 1)], tail: 64 }, BitsDesc::Runs { pairs: vec![(64, 64)], tail: 1 }] {
+    // ... and parents whose length is an exact multiple of the word size (the last word is full).
+    for d in [BitsDesc::Runs { pairs: vec![(62, 3), (63, 1), (1, 2)], tail: 0 }, BitsDesc::Runs { pairs: vec![(0, 1), (127, 1), (0, 1)], tail: 64 }, BitsDesc::Runs { pairs: vec![(64, 64)], tail: 1 },
+              BitsDesc::Runs { pairs: vec![(10, 1), (52, 1)], tail: 0 }, BitsDesc::Runs { pairs: vec![(0, 63)], tail: 1 }, BitsDesc::Runs { pairs: vec![(0, 64), (63, 1)], tail: 0 }] {
         parents.push(Parent::Bv(d.clone()));
         parents.push(Parent::Sparse(d.clone()));
         parents.push(Parent::Rl(d));
